@@ -253,6 +253,78 @@ func c10Sequence(c *Ctx, kind string, keys []string, seqIdx int) {
 			}
 		}
 	}
+	judge2 := func(line, obs string) { judge(line, obs, "multipart-sweep") }
+	// deterministic: a multipart upload belongs to the (bucket, key) it was initiated for: part
+	// uploads, part listings, completes and aborts addressed to another key or another bucket with
+	// its upload id touch neither that key nor the upload's own key
+	if seqIdx == 0 && len(buckets) > 0 {
+		b0 := buckets[0]
+		own, other := "mp-own", "mp-other"
+		judge2(r.Put(b0, own, nil, []byte("own-before")))
+		judge2(r.Put(b0, other, nil, []byte("other-before")))
+		li, oi, id := r.MpInit(b0, own, nil)
+		judge2(li, oi)
+		_ = judge2
+		body := []byte("mp-part-one")
+		if id != "" {
+			judge2(r.MpPart(b0, own, id, "1", body, "", nil))
+			type tgt struct{ b, k string }
+			tgts := []tgt{{b0, other}}
+			if len(buckets) > 1 {
+				tgts = append(tgts, tgt{buckets[1], own}, tgt{buckets[1], other})
+			}
+			for _, t := range tgts {
+				for _, what := range []string{"part", "parts", "complete", "abort"} {
+					before := takeSnap(r, buckets)
+					var line, obs string
+					switch what {
+					case "part":
+						line, obs = r.MpPart(t.b, t.k, id, "1", []byte("foreign-part"), "", nil)
+					case "parts":
+						var po PartsObs
+						line, po = r.MpParts(t.b, t.k, id, "", "", 0, 1000)
+						obs = po.Obs
+					case "complete":
+						line, obs = r.MpComplete(t.b, t.k, id, []cpart{{1, etagOf(body)}})
+					case "abort":
+						line, obs = r.MpAbort(t.b, t.k, id)
+					}
+					judge2(line, obs)
+					after := takeSnap(r, buckets)
+					c.R.Evaluations++
+					if !strings.HasPrefix(obs, "err ") && !strings.HasPrefix(obs, "status ") {
+						c.mismatch(Mismatch{Kind: "spec", Backend: kind, Case: append(append([]string{}, r.Lines...), line), Impl: trunc(obs, 120),
+							Spec: fmt.Sprintf("upload %s was initiated for %s/%s: a %s addressed to %s/%s is refused", id, b0, own, what, t.b, t.k), Finger: "c10:upload-through-other-key:" + what})
+						return
+					}
+					if v := frameViolations(before, after, map[string]bool{}, ""); len(v) > 0 {
+						c.mismatch(Mismatch{Kind: "spec", Backend: kind, Case: append(append([]string{}, r.Lines...), line), Impl: obs + " ; " + strings.Join(v, " ; "),
+							Spec: "a refused multipart request changes nothing", Finger: "c10:frame:upload-through-other-key"})
+						return
+					}
+				}
+			}
+			// the upload is still whole: completing it through its own key stores exactly its part
+			before := takeSnap(r, buckets)
+			line, obs := r.MpComplete(b0, own, id, []cpart{{1, etagOf(body)}})
+			judge2(line, obs)
+			after := takeSnap(r, buckets)
+			c.R.Evaluations++
+			if !strings.HasPrefix(obs, "completed ") {
+				c.mismatch(Mismatch{Kind: "spec", Backend: kind, Case: append(append([]string{}, r.Lines...), line), Impl: trunc(obs, 120),
+					Spec: "the upload, untouched by the foreign requests, completes through its own key", Finger: "c10:upload-through-other-key:own-complete"})
+				return
+			}
+			if v := frameViolations(before, after, map[string]bool{b0 + "\x00" + own: true}, ""); len(v) > 0 {
+				c.mismatch(Mismatch{Kind: "spec", Backend: kind, Case: append(append([]string{}, r.Lines...), line), Impl: obs + " ; " + strings.Join(v, " ; "),
+					Spec: "completing an upload changes its own key only", Finger: "c10:frame:complete"})
+				return
+			}
+			c.hist("upload-through-other-key-sweeps")
+		}
+		judge2(r.Del(b0, own))
+		judge2(r.Del(b0, other))
+	}
 	n := 12 + c.Rng.Intn(14)
 	for i := 0; i < n; i++ {
 		b := buckets[c.Rng.Intn(len(buckets))]
